@@ -116,6 +116,20 @@ def refuted_edges(body, ex, hyp, variants=None):
         d = ex.switch_discr(s)
         t = body.term(s)
         edges = switch_edges(body, s)
+        if strip_refs(d) in hyp and body.term(s)["discr_ty"] == "bool" and hyp[strip_refs(d)][0] == "eq" and isinstance(hyp[strip_refs(d)][1], bool):
+            want = hyp[strip_refs(d)][1]
+            listed = [v2 for v2, _ in t["cases"]]
+            for tg, vals, oth in edges:
+                edge_truth = None
+                if vals == [0] and not oth:
+                    edge_truth = False
+                elif vals == [1] and not oth:
+                    edge_truth = True
+                elif oth:
+                    edge_truth = True if listed == [0] else (False if listed == [1] else None)
+                if edge_truth is not None and edge_truth != want:
+                    out.add((s, tg))
+            continue
         if d[0] == "bin" and d[1] in ("Eq", "Ne"):
             a, c = strip_refs(d[2]), strip_refs(d[3])
             x, k = (a, _as_value(c)) if a in hyp else ((c, _as_value(a)) if c in hyp else (None, None))
@@ -155,6 +169,52 @@ def refuted_edges(body, ex, hyp, variants=None):
                 if rel == "eq" and v not in poss:
                     out.add((s, tg))
                 elif rel == "ne" and poss and poss <= (set(v) if isinstance(v, (tuple, set, frozenset)) else {v}):
+                    out.add((s, tg))
+    # boolean temporaries built by `a || b || c` / `a && b`: a switch on a bool local whose
+    # definitions are constants or hypothesis-known expressions keeps only the edges compatible with
+    # the definitions that are still reachable under the hypothesis (two rounds reach a fixpoint here)
+    for _ in range(2):
+        reach = body.reach_from(0, (), out)
+        for s in body.normal:
+            if s not in reach or body.term(s)["k"] != "switch" or body.term(s)["discr_ty"] != "bool":
+                continue
+            d = strip_refs(ex.switch_discr(s))
+            if d[0] != "var":
+                continue
+            vals = set()
+            ok = True
+            for dloc, kind in d[2]:
+                if kind != "whole":
+                    ok = False
+                    break
+                if dloc[0] not in reach:
+                    continue
+                bb, i = dloc
+                st = body.stmts(bb)
+                if i >= len(st):
+                    ok = False
+                    break
+                e = strip_refs(ex.rvalue(st[i]["rv"], dloc))
+                if e[0] == "const" and isinstance(e[1], bool):
+                    vals.add(e[1])
+                elif e in hyp and hyp[e][0] == "eq" and isinstance(hyp[e][1], bool):
+                    vals.add(hyp[e][1])
+                else:
+                    vals |= {True, False}
+            if not ok or len(vals) != 1:
+                continue
+            want = next(iter(vals))
+            t = body.term(s)
+            listed = [v2 for v2, _ in t["cases"]]
+            for tg, vs, oth in switch_edges(body, s):
+                edge_truth = None
+                if vs == [0] and not oth:
+                    edge_truth = False
+                elif vs == [1] and not oth:
+                    edge_truth = True
+                elif oth:
+                    edge_truth = True if listed == [0] else (False if listed == [1] else None)
+                if edge_truth is not None and edge_truth != want:
                     out.add((s, tg))
     return out
 
